@@ -28,21 +28,22 @@ Fixpoint get_version (s : bytes) : version :=
   end.
 
 (* ValidateTagAppendixB; fuel = number of sections *)
-Fixpoint tag_key (s : bytes) : option bytes :=     (* after ';': scan to '=', reject ; and ! ; returns what follows '=' *)
+(* after ';': scan to '=', reject ; and ! ; returns what follows '=' *)
+Fixpoint tag_key (s : bytes) : option bytes :=
   match s with
   | [] => None
-  | 61 :: s' => Some s'
-  | 59 :: _ | 33 :: _ => None
-  | _ :: s' => tag_key s'
+  | c :: s' => if c =? 61 then Some s'
+               else if (c =? 59) || (c =? 33) then None
+               else tag_key s'
   end.
 
 (* scan the value: Some None = reached the end, Some (Some rest) = stopped at ';' (rest starts with it), None = '=' found *)
 Fixpoint tag_val (s : bytes) : option (option bytes) :=
   match s with
   | [] => Some None
-  | 59 :: _ => Some (Some s)
-  | 61 :: _ => None
-  | _ :: s' => tag_val s'
+  | c :: s' => if c =? 59 then Some (Some s)
+               else if c =? 61 then None
+               else tag_val s'
   end.
 
 Fixpoint tag_appendix (fuel : nat) (tags : bytes) : bool :=
@@ -51,22 +52,28 @@ Fixpoint tag_appendix (fuel : nat) (tags : bytes) : bool :=
   | S f =>
       if Nat.ltb (length tags) 4 then false else
       match tags with
-      | 59 :: 61 :: _ => false
-      | 59 :: rest =>
-          match tag_key rest with
-          | None => false
-          | Some v =>
-              match v with
-              | [] => false
-              | 59 :: _ => false
-              | _ => match tag_val v with
-                     | None => false
-                     | Some None => true
-                     | Some (Some rest') => tag_appendix f rest'
-                     end
+      | [] => false
+      | c :: rest =>
+          if negb (c =? 59) then false else
+          match rest with
+          | [] => false
+          | c1 :: _ =>
+              if c1 =? 61 then false else
+              match tag_key rest with
+              | None => false
+              | Some v =>
+                  match v with
+                  | [] => false
+                  | c2 :: _ =>
+                      if c2 =? 59 then false else
+                      match tag_val v with
+                      | None => false
+                      | Some None => true
+                      | Some (Some rest') => tag_appendix f rest'
+                      end
+                  end
               end
           end
-      | _ => false
       end
   end.
 
